@@ -5,6 +5,7 @@ import (
 	"go/token"
 	"go/types"
 	"os"
+	"runtime/debug"
 	"strings"
 
 	"golang.org/x/tools/go/ssa"
@@ -290,6 +291,9 @@ func (fr *frame) runFrame() {
 			switch r.(type) {
 			case pathEnd, killed, unsupported, engineBug:
 				panic(r)
+			}
+			if os.Getenv("VERIF_DEBUG") != "" {
+				fmt.Fprintf(os.Stderr, "ENGINE-BUG %v\n%s\n", r, debug.Stack())
 			}
 			panic(engineBug{fmt.Sprintf("%v [in %s at %s: %v]", r, fr.fn, fr.pos(), fr.curInstr)})
 		}
